@@ -182,6 +182,47 @@ def acceptM (f : Fns) (ch : List (List Entry)) (w : Word) : Bool :=
   | some e => e.dialectOk && (containsExactM f ch w || containsExactM f ch (f.lower w))
   | none => false
 
+/-! ## `MergedDictionary` equality: the rebuild decision of `update_document`
+
+`merged_dictionary.rs`: `add_dictionary` stores `hash_dictionary(child)` next to the child;
+`PartialEq` compares the `child_hashes` vectors. `hash_dictionary` is the constant `1` for the curated
+dictionary (`Arc::ptr_eq` with `FstDictionary::curated()`), otherwise ONE hasher is fed
+`write_u32(c)` for every character of every word in `words_iter` order — nothing marks where a word
+ends — and `finish`ed. `update_document` keeps the document's old dictionary and linter when the
+freshly loaded merged dictionary compares equal to the one it holds. -/
+
+/-- what the hasher sees of one child -/
+def stream (it : List Word) : List Char := it.flatten
+
+/-- a child of the merged dictionary, as `words_iter` enumerates it -/
+inductive Child where
+  | curated
+  | words (it : List Word)
+  deriving Repr, DecidableEq
+
+/-- `hash_dictionary`; `h` = the hash of a character sequence (foldhash `quality::FixedState`) -/
+def childHash (h : List Char → Nat) : Child → Nat
+  | .curated => 1
+  | .words it => h (stream it)
+
+/-- `child_hashes` -/
+def fingerprint (h : List Char → Nat) (ch : List Child) : List Nat := ch.map (childHash h)
+
+/-- `impl PartialEq for MergedDictionary` -/
+def mergedEq (h : List Char → Nat) (a b : List Child) : Bool := fingerprint h a == fingerprint h b
+
+/-- `if doc_state.dict != dict { doc_state.dict = dict; rebuild the linter }`: the dictionary the
+document is parsed and linted with after an update that loaded `loaded` -/
+def heldAfter (h : List Char → Nat) (held loaded : List Child) : List Child :=
+  if mergedEq h held loaded then held else loaded
+
+/-- an injective stand-in for the hash, used by the driver: the sequence as a number in base
+0x110001 with digits `c + 1` -/
+def hashInj (s : List Char) : Nat := s.foldl (fun acc c => acc * 0x110001 + (c.toNat + 1)) 0
+
+/-- the order-independent fingerprint of the seeded change: XOR of a per-character hash `g` -/
+def xorHash (g : Char → Nat) (s : List Char) : Nat := s.foldl (fun acc c => acc ^^^ g c) 0
+
 /-! ## the JS linter (`harper-wasm`) -/
 
 structure Js where
